@@ -6,6 +6,7 @@ import (
 	"math/rand"
 	"strconv"
 	"strings"
+	"sync"
 
 	"github.com/GuanceCloud/platypus/pkg/ast"
 	"github.com/GuanceCloud/platypus/pkg/parser"
@@ -451,6 +452,7 @@ func replaySyntax(args []string) (any, error) {
 	rng := rand.New(rand.NewSource(seed))
 	sum := &Summary{Extra: map[string]any{}}
 	texts := 0
+	var again [][2]string
 	err := readNDJSON(args[0], func(raw json.RawMessage) error {
 		var row synRow
 		if err := json.Unmarshal(raw, &row); err != nil {
@@ -487,9 +489,50 @@ func replaySyntax(args []string) (any, error) {
 			if mode == 0 {
 				sum.sample(map[string]any{"text": text})
 			}
+			if texts%7 == 0 && len(again) < 4000 {
+				again = append(again, [2]string{text, parseRender("t.p", text)})
+			}
 		}
 		return nil
 	})
+	// the same texts once more, several at a time (a host loads scripts from many goroutines) and with rejected texts in between:
+	// a text parses to the tree it parsed to alone
+	for at := 0; at < len(again); at += 8 {
+		end := at + 8
+		if end > len(again) {
+			end = len(again)
+		}
+		disturbParser()
+		got := make([]string, end-at)
+		var wg sync.WaitGroup
+		for i := at; i < end; i++ {
+			wg.Add(1)
+			go func(i int) {
+				defer wg.Done()
+				defer func() {
+					if r := recover(); r != nil {
+						got[i-at] = fmt.Sprintf("panic: %v", r)
+					}
+				}()
+				if i%3 == 0 {
+					_, _ = parser.ParsePipeline("junk.p", disturbTexts[i%len(disturbTexts)])
+				}
+				got[i-at] = parseRender("t.p", again[i][0])
+			}(i)
+		}
+		wg.Wait()
+		for i := at; i < end; i++ {
+			sum.Evaluations++
+			if got[i-at] != again[i][1] {
+				sig := "syntax-overlapping:" + again[i][0]
+				if len(sig) > 300 {
+					sig = sig[:300]
+				}
+				sum.miss(sig, map[string]any{"text": again[i][0], "alone": again[i][1], "among_overlapping_parses": got[i-at]})
+			}
+		}
+	}
 	sum.Extra["texts_parsed"] = texts
+	sum.Extra["texts_parsed_again_overlapping"] = len(again)
 	return sum, err
 }
